@@ -38,6 +38,12 @@ fn assert_untouched(env: &Env, s: &Snap, writes0: usize) {
     assert!(env.store.writes() == writes0, "C04 rejected message was stored");
     assert!(env.core.aggregator.verif_is_empty(), "C04 rejected message entered the aggregator");
 }
+fn any_node_state_at(env: &mut Env, hq_hash: Digest, round: Round) {
+    env.core.round = round;
+    env.core.last_voted_round = vwit::any_u64();
+    env.core.high_qc = QC { hash: hq_hash, round: vwit::any_u64(), votes: Vec::new() };
+    vwit::assume(inv(&env.core));
+}
 fn any_node_state(env: &mut Env, hq_hash: Digest) {
     env.core.round = vwit::any_u64();
     env.core.last_voted_round = vwit::any_u64();
@@ -52,9 +58,14 @@ fn leader_of(r: Round) -> u8 {
 /// Stored chain genesis <- b0(5) <- b1(6); proposal `blk` of symbolic round R > 6 carrying a 3-vote QC for b1.
 /// `bad`: 0 = everything valid, 1 = block signature invalid, 2 = one QC vote invalid, 3 = QC below quorum (2 votes),
 ///        4 = QC with a repeated signer.  The author is symbolic (leader of R or not).
-fn handle_proposal_check(bad: u8) {
+fn handle_proposal_check(bad: u8, cur_round: Round) {
     store::reset();
-    let mut env = mk_core(0, &EQ4);
+    // The node's current round is concrete per harness (3: behind the proposal's QC, 7: exactly there, 9: ahead) and the node
+    // is chosen so that it does not lead the round after the one it ends up in: the self-addressed vote path (vote ->
+    // own aggregator -> certificate path) is covered by hv_single / hv_quorum and would triple the cost here.
+    let end_round = if 6 >= cur_round { 7 } else { cur_round };
+    let me = ((end_round + 2) % 4) as u8;
+    let mut env = mk_core(me, &EQ4);
     let b0 = blk(1, 5, Digest::default(), 0);
     let d0 = b0.digest();
     env.store.preload(d0.to_vec(), bincode::serialize(&b0).unwrap());
@@ -64,7 +75,7 @@ fn handle_proposal_check(bad: u8) {
     vwit::assume(d0 != d1 && d0 != Digest::default() && d1 != Digest::default());
     store::script_strict(&[1, 0]);
     env.core.last_committed_round = 4;
-    any_node_state(&mut env, d0.clone());
+    any_node_state_at(&mut env, d0.clone(), cur_round);
     let r: Round = vwit::any_u64();
     let author: u8 = vwit::any_u8();
     vwit::assume(r > 6 && r < (1u64 << 62) && author < 4);
@@ -110,7 +121,8 @@ fn handle_proposal_check(bad: u8) {
         }
         // C03/C09: vote only if the block is for the (possibly advanced) current round, extends safely, and was not voted past
         let may_vote = r == exp_round && r > s0.lv && 6 + 1 == r;
-        let next_leader_is_me = (exp_round + 1) % 4 == 0;
+        let next_leader_is_me = (exp_round + 1) % 4 == me as u64;
+        assert!(!next_leader_is_me);
         if may_vote {
             assert!(env.core.last_voted_round == r, "C03 vote expected");
             if !next_leader_is_me {
@@ -124,41 +136,42 @@ fn handle_proposal_check(bad: u8) {
         assert!(env.rx_commit.len() == 1, "C05 2-chain head not committed exactly once");
         assert!(env.store.writes() == 1, "block not stored");
     }
-    vwit::cover!(res.is_ok());
-    vwit::cover!(res.is_err() && right_leader);
+    // vacuity witnesses (a cover in a branch that is dead for this variant would be unreachable, hence the implications)
+    vwit::cover!(bad != 0 || res.is_ok());
+    vwit::cover!(bad != 0 || (res.is_err() && !right_leader));
+    vwit::cover!(bad == 0 || (res.is_err() && right_leader));
     std::mem::forget(res);
     std::mem::forget((b, b0, b1, d0, d1));
     std::mem::forget(env);
 }
 macro_rules! hp_h {
-    ($name:ident, $bad:expr) => {
+    ($name:ident, $bad:expr, $round:expr) => {
         #[kani::proof]
         #[kani::unwind(12)]
         #[kani::stub(std::fmt::format, stub_format)]
         fn $name() {
-            handle_proposal_check($bad)
+            handle_proposal_check($bad, $round)
         }
     };
 }
-hp_h!(hp_valid, 0);
-hp_h!(hp_bad_block_sig, 1);
-hp_h!(hp_bad_qc_vote, 2);
-hp_h!(hp_qc_below_quorum, 3);
-hp_h!(hp_qc_repeated_signer, 4);
+hp_h!(hp_valid, 0, 7);
+hp_h!(hp_valid_behind, 0, 3);
+hp_h!(hp_valid_ahead, 0, 9);
+hp_h!(hp_bad_block_sig, 1, 7);
+hp_h!(hp_bad_qc_vote, 2, 3);
+hp_h!(hp_qc_below_quorum, 3, 7);
+hp_h!(hp_qc_repeated_signer, 4, 3);
 
 // ===================================================================================== handle_vote
-/// One vote from a symbolic author (member or not) with a symbolically valid signature, symbolic round.
-#[kani::proof]
-#[kani::unwind(12)]
-#[kani::stub(std::fmt::format, stub_format)]
-fn hv_single() {
+/// One vote (author concrete per harness: member 1 or the non-member 4) with a symbolically valid signature and a symbolic
+/// round. The author is concrete because the stake lookup decides the control flow into the certificate path.
+fn handle_vote_single(a: u8) {
     store::reset();
     let mut env = mk_core(0, &EQ4);
     any_node_state(&mut env, Digest::default());
-    let a: u8 = vwit::any_u8();
     let ok: bool = vwit::any_bool();
     let r: Round = vwit::any_u64();
-    vwit::assume(a < 5 && r < (1u64 << 62));
+    vwit::assume(r < (1u64 << 62));
     let mut v = Vote { hash: Digest(crypto::DBytes([9; 8])), round: r, author: key(a), signature: Signature::default() };
     let wrong = any_digest();
     vwit::assume(wrong != v.digest());
@@ -167,54 +180,63 @@ fn hv_single() {
     let res = run_ready(env.core.handle_vote(&v));
     if r < s0.round {
         assert!(res.is_ok(), "stale vote must be ignored silently");
+        assert!(env.rx_proposer.len() == 0, "C09 proposal requested on a stale vote");
+        assert!(env.core.round == s0.round && env.core.high_qc.round == s0.hq, "C10 round/high_qc changed by a stale vote");
         assert_untouched(&env, &s0, 0);
     } else if a >= 4 || !ok {
         assert!(res.is_err(), "C04 invalid vote accepted");
         assert_untouched(&env, &s0, 0);
     } else {
         assert!(res.is_ok());
-        // a single vote (stake 1 of 4) never forms a certificate: no round change, nothing sent
+        // a single vote (stake 1 of 4) never forms a certificate: no round change, nothing sent, nothing committed
         assert!(env.core.round == s0.round && env.core.high_qc.round == s0.hq, "C10 round/high_qc moved without a certificate");
         assert!(sent_len() == 0 && env.rx_proposer.len() == 0, "C09 proposal requested without entering a new round");
+        assert!(env.rx_commit.len() == 0, "C05 a vote caused a commit");
         assert!(!env.core.aggregator.verif_is_empty());
     }
-    vwit::cover!(res.is_ok() && r >= s0.round);
-    vwit::cover!(res.is_err());
+    vwit::cover!(a >= 4 || (res.is_ok() && r >= s0.round));
+    vwit::cover!(r < s0.round || res.is_err());
     std::mem::forget(res);
     std::mem::forget(v);
     std::mem::forget(env);
 }
-/// Three valid votes of distinct members for one block of symbolic round r >= current round: the third assembles the QC.
 #[kani::proof]
 #[kani::unwind(12)]
 #[kani::stub(std::fmt::format, stub_format)]
-fn hv_quorum() {
+fn hv_single() { handle_vote_single(1) }
+#[kani::proof]
+#[kani::unwind(12)]
+#[kani::stub(std::fmt::format, stub_format)]
+fn hv_single_nonmember() { handle_vote_single(4) }
+/// Two valid votes of distinct members for one block of round r already sit in the aggregator (put there through the real
+/// `Aggregator::add_vote`); the third arrives through the real `handle_vote` and assembles the QC. The node's current round
+/// and r are concrete per harness (they decide which aggregator entries survive `cleanup`); last_voted_round and high_qc
+/// are symbolic.
+fn handle_vote_quorum(cur_round: Round, r: Round, me: u8) {
     store::reset();
-    let mut env = mk_core(0, &EQ4);
-    any_node_state(&mut env, Digest::default());
-    let r: Round = vwit::any_u64();
-    vwit::assume(r >= env.core.round && r < (1u64 << 62));
+    let mut env = mk_core(me, &EQ4);
+    any_node_state_at(&mut env, Digest::default(), cur_round);
     let s0 = snap(&env);
     let h = Digest(crypto::DBytes([9; 8]));
-    let mut i = 1u8;
-    while i <= 3 {
+    let mk = |i: u8| {
         let mut v = Vote { hash: h.clone(), round: r, author: key(i), signature: Signature::default() };
         v.signature = sig(i, &v.digest());
-        let res = run_ready(env.core.handle_vote(&v));
-        assert!(res.is_ok());
-        if i < 3 {
-            assert!(env.core.round == s0.round && env.rx_proposer.len() == 0, "C19 certificate acted upon before the quorum");
-        }
-        std::mem::forget(res);
-        std::mem::forget(v);
-        i += 1;
-    }
+        v
+    };
+    // authors other than the node itself, in a fixed order
+    let a = [(me + 1) % 4, (me + 2) % 4, (me + 3) % 4];
+    assert!(matches!(env.core.aggregator.add_vote(mk(a[0])), Ok(None)));
+    assert!(matches!(env.core.aggregator.add_vote(mk(a[1])), Ok(None)));
+    let v3 = mk(a[2]);
+    let res = run_ready(env.core.handle_vote(&v3));
+    assert!(res.is_ok());
     // C10: entered round r+1 on the evidence of the assembled QC for round r; C19: exactly once
     assert!(env.core.round == r + 1, "C10 round after assembling a QC");
     assert!(env.core.high_qc.round == if r > s0.hq { r } else { s0.hq }, "C10 high_qc after assembling a QC");
     assert!(env.core.high_qc.round != r || env.core.high_qc.votes.len() == 3, "C19 assembled QC entry count");
+    assert!(env.core.timer.verif_resets() == s0.timer_resets + 1, "C10 timer not reset on round advance");
     // C09: a proposal is requested iff this node leads the new round, exactly once, for that round
-    let i_lead = (r + 1) % 4 == 0;
+    let i_lead = (r + 1) % 4 == me as u64;
     if i_lead {
         assert!(env.rx_proposer.len() == 1, "C09 leader of the new round did not request exactly one proposal");
         match env.rx_proposer.try_pop() {
@@ -228,11 +250,30 @@ fn hv_quorum() {
     } else {
         assert!(env.rx_proposer.len() == 0, "C09 non-leader requested a proposal");
     }
-    assert!(sent_len() == 0);
-    vwit::cover!(i_lead);
-    vwit::cover!(!i_lead && r > s0.hq);
+    assert!(sent_len() == 0 && env.rx_commit.len() == 0);
+    // a fourth (late) vote for the same block and round is stale now and changes nothing (C19: formed once)
+    let v4 = mk(me);
+    let res4 = run_ready(env.core.handle_vote(&v4));
+    assert!(res4.is_ok() && env.core.round == r + 1, "C19 late vote acted upon");
+    assert!(env.rx_proposer.len() == 0, "C09 second proposal request for one round");
+    vwit::cover!(r > s0.hq);
+    std::mem::forget((res, res4, v3, v4));
     std::mem::forget(env);
 }
+macro_rules! hvq_h {
+    ($name:ident, $cur:expr, $r:expr, $me:expr) => {
+        #[kani::proof]
+        #[kani::unwind(12)]
+        #[kani::stub(std::fmt::format, stub_format)]
+        fn $name() {
+            handle_vote_quorum($cur, $r, $me)
+        }
+    };
+}
+// node leads round r+1 (QC at the next leader), current round == vote round
+hvq_h!(hv_quorum, 7, 7, 0);
+// votes for a future round, node does not lead r+1
+hvq_h!(hv_quorum_future_nonleader, 5, 9, 0);
 
 // ===================================================================================== handle_tc / handle_timeout / local timeout
 fn tc_of(round: Round, signers: &[u8], hq: Round) -> TC {
@@ -265,6 +306,10 @@ fn handle_tc_check(bad: u8) {
         assert_untouched(&env, &s0, 0);
     } else if r < s0.round {
         assert!(res.is_ok());
+        // a stale TC (for a round the node already left) must be ignored: in particular it must not make the leader of the
+        // current round propose again for it
+        assert!(env.rx_proposer.len() == 0, "C09 proposal requested again on a stale TC (second proposal for one round)");
+        assert!(env.core.round == s0.round, "C10 round changed by a stale TC");
         assert_untouched(&env, &s0, 0);
     } else {
         assert!(res.is_ok());
@@ -285,8 +330,9 @@ fn handle_tc_check(bad: u8) {
             assert!(env.rx_proposer.len() == 0, "C09 non-leader requested a proposal");
         }
     }
-    vwit::cover!(res.is_ok() && r >= s0.round);
-    vwit::cover!(res.is_ok() && r < s0.round || res.is_err());
+    vwit::cover!(bad != 0 || (res.is_ok() && r >= s0.round));
+    vwit::cover!(bad != 0 || (res.is_ok() && r < s0.round));
+    vwit::cover!(bad == 0 || res.is_err());
     std::mem::forget(res);
     std::mem::forget(env);
 }
@@ -343,20 +389,22 @@ fn lt_local_timeout() {
 fn lt_then_proposal() {
     let mut pb = {
         // reuse the process_block environment: chain 5 <- 6, delivered up to 4
-        super::kani_core_h::pb_setup_pub(5, 6, 4)
+        super::kani_core_h::pb_setup_pub(5, 6, 4, 7)
     };
     pb.env.core.high_qc = QC::genesis();
     vwit::assume(inv(&pb.env.core));
     let round0 = pb.env.core.round;
     let res = run_ready(pb.env.core.local_timeout_round());
     assert!(res.is_ok());
+    assert!(pb.env.core.round == round0);
     let sent0 = sent_len();
+    // a proposal for the very round the node just timed out in, extending the certified block of round 6
     vwit::assume(pb.blk.round == round0);
     let res2 = run_ready(pb.env.core.process_block(&pb.blk));
     assert!(res2.is_ok());
     assert!(sent_len() == sent0, "C03 voted in a round after timing out in it");
     assert!(pb.env.core.last_voted_round == round0);
-    vwit::cover!(pb.blk.round == 7);
+    vwit::cover!(pb.blk.round == 7 && pb.pre_lv < 7);
     std::mem::forget((res, res2));
     std::mem::forget(pb);
 }
